@@ -80,20 +80,26 @@ func (ws *WritingState) Start(filenamePattern, path string, config *WriteControl
 	return ws.setExperimentStateLabel(time.Now(), "START")
 }
 
-// Stop will set the WritingState to be completely stopped
+// Stop will set the WritingState to be completely stopped.
+// Every side file is flushed and closed, and all per-run state is reset, whatever happens to the
+// other files: a failure (e.g. a full disk) is reported as the first error met, but it must not
+// leave files open or file names armed for the blocks and requests that follow.
 func (ws *WritingState) Stop() error {
 	ws.Lock()
 	defer ws.Unlock()
 	ws.Active = false
 	ws.Paused = false
 	ws.FilenamePattern = ""
-	if ws.experimentStateFile != nil {
-		if err := ws.setExperimentStateLabel(time.Now(), "STOP"); err != nil {
-			return err
+	var firstErr error
+	note := func(err error) {
+		if err != nil && firstErr == nil {
+			firstErr = err
 		}
-
+	}
+	if ws.experimentStateFile != nil {
+		note(ws.setExperimentStateLabel(time.Now(), "STOP"))
 		if err := ws.experimentStateFile.Close(); err != nil {
-			return fmt.Errorf("failed to close experimentStatefile, err: %v", err)
+			note(fmt.Errorf("failed to close experimentStatefile, err: %v", err))
 		}
 	}
 	ws.experimentStateFile = nil
@@ -102,28 +108,28 @@ func (ws *WritingState) Stop() error {
 	ws.ExperimentStateLabelUnixNano = 0
 	if ws.externalTriggerFile != nil {
 		if err := ws.externalTriggerFileBufferedWriter.Flush(); err != nil {
-			return fmt.Errorf("failed to flush externalTriggerFileBufferedWriter, err: %v", err)
+			note(fmt.Errorf("failed to flush externalTriggerFileBufferedWriter, err: %v", err))
 		}
 		if err := ws.externalTriggerFile.Close(); err != nil {
-			return fmt.Errorf("failed to close externalTriggerFile, err: %v", err)
+			note(fmt.Errorf("failed to close externalTriggerFile, err: %v", err))
 		}
-		ws.externalTriggerFileBufferedWriter = nil
-		ws.externalTriggerFile = nil
 	}
+	ws.externalTriggerFileBufferedWriter = nil
+	ws.externalTriggerFile = nil
 	if ws.dataDropFile != nil {
 		if err := ws.dataDropFileBufferedWriter.Flush(); err != nil {
-			return fmt.Errorf("failed to flush externalTriggerFileBufferedWriter, err: %v", err)
+			note(fmt.Errorf("failed to flush externalTriggerFileBufferedWriter, err: %v", err))
 		}
 		if err := ws.dataDropFile.Close(); err != nil {
-			return fmt.Errorf("failed to close dataDropFile, err: %v", err)
+			note(fmt.Errorf("failed to close dataDropFile, err: %v", err))
 		}
-		ws.dataDropFileBufferedWriter = nil
-		ws.dataDropFile = nil
 	}
+	ws.dataDropFileBufferedWriter = nil
+	ws.dataDropFile = nil
 	ws.externalTriggerNumberObserved = 0
 	ws.ExternalTriggerFilename = ""
 	ws.DataDropFilename = ""
-	return nil
+	return firstErr
 }
 
 // SetExperimentStateLabel writes to a file with name like XXX_experiment_state.txt
